@@ -31,7 +31,8 @@ func init() {
 				{Name: "peer-network-as-prefix", File: "hostmap.go", Old: "\t\tnprefix := netip.PrefixFrom(network.Addr(), network.Addr().BitLen())\n\t\tif myVpnNetworksTable.Contains(network.Addr()) {", New: "\t\tnprefix := network\n\t\tif myVpnNetworksTable.Contains(network.Addr()) {", Rule: "C17.peer-table"},
 				{Name: "whole-overlay-network-routable", File: "firewall.go", Old: "\t\tnprefix := netip.PrefixFrom(network.Addr(), network.Addr().BitLen())\n\t\troutableNetworks.Insert(nprefix)", New: "\t\troutableNetworks.Insert(network)", Rule: "C17.routable"},
 				{Name: "second-writer-of-peer-table", File: "hostmap.go", Old: "func (i *HostInfo) logger(l *slog.Logger) *slog.Logger {\n", New: "func (i *HostInfo) allowNetwork(p netip.Prefix) {\n\ti.networks.Insert(p, NetworkTypeVPN)\n}\n\nfunc (i *HostInfo) logger(l *slog.Logger) *slog.Logger {\n", Rule: "C17.writers"},
-				{Name: "commit-on-no-rule", File: "outside.go", Old: "\tif dropReason != nil {\n\t\tf.rejectOutside(out, hostinfo.ConnectionState, hostinfo, rxc.nb, rxc.scratch, rxc.q)", New: "\tif dropReason != nil && dropReason != ErrInvalidRemoteIP {\n\t\tf.rejectOutside(out, hostinfo.ConnectionState, hostinfo, rxc.nb, rxc.scratch, rxc.q)", Rule: "C17.delivery"},
+				{Name: "reject-answers-spoofed-source", File: "outside.go", Old: "\t\tif dropReason == ErrNoMatchingRule {\n\t\t\tf.rejectOutside(", New: "\t\tif dropReason != nil {\n\t\t\tf.rejectOutside(", Rule: "C17.reject"},
+				{Name: "commit-on-no-rule", File: "outside.go", Old: "\tif dropReason != nil {\n\t\t// only answer packets", New: "\tif dropReason != nil && dropReason != ErrNoMatchingRule {\n\t\t// only answer packets", Rule: "C17.delivery"},
 				{Name: "outbound-parsed-as-inbound", File: "inside.go", Old: "\tpacket := pkt.Bytes\n\terr := newPacket(packet, false, fwPacket)", New: "\tpacket := pkt.Bytes\n\terr := newPacket(packet, true, fwPacket)", Rule: "C17.delivery"},
 				{Name: "cached-packet-sent-unchecked", File: "inside.go", Old: "\t\t\thh.cachePacket(f.l, header.Message, 0, seg, f.sendMessageNow, f.cachedPacketMetrics)", New: "\t\t\thh.cachePacket(f.l, header.Message, 0, seg, f.SendMessageToHostInfo, f.cachedPacketMetrics)", Rule: "C17.emitters"},
 			}
